@@ -32,3 +32,20 @@ Definition src_app_opt {B : Type} (a b : option (list B)) : option (list B) :=
 (* `yield x`, then the rest *)
 Definition src_cons_opt {B : Type} (x : B) (b : option (list B)) : option (list B) :=
   match b with Some y => Some (x :: y) | None => None end.
+
+(* ---- strings (tile naming) ---- *)
+From Coq Require Import String Ascii DecimalString DecimalZ.
+Local Open Scope string_scope.
+
+(* str(n) of a Python int: decimal, "-" for negatives, no leading zeros *)
+Definition src_str (z : Z) : string := NilZero.string_of_int (Z.to_int z).
+
+(* os.path.join(a, b) on POSIX for a non-empty [a] not ending in "/" and a relative [b] *)
+Definition src_join (a b : string) : string := a ++ String "/"%char b.
+
+(* `x or y` for an optional string x: y when x is None or empty *)
+Definition src_or (x : option string) (y : string) : string :=
+  match x with
+  | Some f => if String.eqb f "" then y else f
+  | None => y
+  end.
